@@ -178,9 +178,16 @@ func genTree(r *rng, maxDirs, maxPerDir int, links bool) *tree {
 			case k == 0 && len(files) > 0:
 				t.add(tnode{path: p, kind: 'l', target: files[r.intn(len(files))]})
 			case k == 1 && len(dirs) > 1:
-				// link to a directory that is not an ancestor (no cycles)
+				// link to a directory that is not an ancestor and holds no link itself: no cycles, neither through
+				// one link nor through several (A/l0 -> B, B/l1 -> A); cyclic trees are a dedicated case of the c06 stream
 				tg := dirs[1+r.intn(len(dirs)-1)]
-				if strings.HasPrefix(p, tg+"/") {
+				holdsLink := false
+				for _, n := range t.nodes {
+					if (n.kind == 'l' || n.kind == 'x') && strings.HasPrefix(n.path, tg+"/") {
+						holdsLink = true
+					}
+				}
+				if strings.HasPrefix(p, tg+"/") || holdsLink {
 					t.add(tnode{path: p, kind: 'x'})
 				} else {
 					t.add(tnode{path: p, kind: 'l', target: tg})
